@@ -1,6 +1,7 @@
 (* C07: resuming from a checkpoint reproduces the first run. *)
 From Coq Require Import List ZArith Bool.
-From DF Require Import Base.Str Base.Value IO.EJson IO.EJson_proofs IO.EJsonInst IO.JsonText IO.JsonText_proofs IO.JsonLine_proofs IO.Stream IO.Stream_proofs IO.StreamText_proofs.
+From DF Require Import Base.Str Base.Value IO.EJson IO.EJson_proofs IO.EJsonInst IO.JsonText IO.JsonText_proofs IO.JsonLine_proofs IO.Stream IO.Stream_proofs IO.StreamText_proofs IO.SortKeys IO.SortKeys_proofs.
+From Coq Require Import Permutation Sorted.
 Import ListNotations.
 Open Scope Z_scope.
 
@@ -127,6 +128,36 @@ Theorem C07_microseconds_dropped_refuted :
   rt_model (VTime 1 2 3 5) = VTime 1 2 3 0 /\ rt_model (VDT 2020 1 2 3 4 5 6 None) = VDT 2020 1 2 3 4 5 0 None.
 Proof. vm_compute. split; reflexivity. Qed.
 Print Assumptions C07_microseconds_dropped_refuted.
+
+(* sort_keys=True in stream.py's write(): the line written for a row does not depend on the order of the row's keys
+   (rows that are the same mapping give the same line, so a resumed run cannot tell them apart) ... *)
+Theorem C07_row_line_independent_of_key_order : forall l l' : list (str * json),
+  NoDup (keys json l) -> Permutation l l' -> sorted_text (JObj l) = sorted_text (JObj l').
+Proof. exact sorted_text_row_perm. Qed.
+Print Assumptions C07_row_line_independent_of_key_order.
+
+(* ... at every depth of nesting ... *)
+Theorem C07_line_independent_of_key_order_at_every_depth : forall j j', jperm j j' -> sorted_text j = sorted_text j'.
+Proof. exact sorted_text_jperm. Qed.
+Print Assumptions C07_line_independent_of_key_order_at_every_depth.
+
+(* ... and the sorting writes exactly the members it was given, in strictly ascending key order *)
+Theorem C07_sorted_members_are_the_members : forall (A : Type) (l : list (str * A)),
+  Permutation l (sort_members l) /\ (NoDup (keys A l) -> Sorted (key_lt A) (sort_members l)).
+Proof. intros A l. split; [apply sort_members_is_perm | apply sort_members_sorted]. Qed.
+Print Assumptions C07_sorted_members_are_the_members.
+
+Example C07_sort_keys_nonvacuous :
+  let a := [([98], JInt 1); ([97], JObj [([122], JNull); ([65], JBool true)])] in
+  let b := [([97], JObj [([122], JNull); ([65], JBool true)]); ([98], JInt 1)] in
+  NoDup (keys json a) /\ Permutation a b /\ sorted_text (JObj a) = sorted_text (JObj b) /\ jprint (JObj a) <> jprint (JObj b).
+Proof.
+  cbv zeta. split; [|split; [|split]].
+  - repeat constructor; cbn; intuition discriminate.
+  - apply perm_swap.
+  - vm_compute. reflexivity.
+  - vm_compute. discriminate.
+Qed.
 
 From Coq Require Import String.
 Local Open Scope string_scope.
